@@ -15,7 +15,7 @@ use uuid::Uuid;
 
 use crate::{
     capabilities::{Capability, Requirements},
-    message::{ReadError, ReadXml, WriteError, WriteXml},
+    message::{read_text, ReadError, ReadXml, WriteError, WriteXml},
     session::Context,
     Error,
 };
@@ -274,7 +274,7 @@ impl ReadXml for Opaque {
     #[tracing::instrument(skip_all, fields(tag = ?start.local_name()), level = "debug")]
     fn read_xml(reader: &mut NsReader<&[u8]>, start: &BytesStart<'_>) -> Result<Self, ReadError> {
         let end = start.to_end();
-        let inner = reader.read_text(end.name())?.into();
+        let inner = read_text(reader, end.name())?.into();
         Ok(Self { inner })
     }
 }
